@@ -71,3 +71,21 @@ register(
     "for every interleaving is not decided.",
     [r3d.r3d_hit, r3d.r3d_bump, r3d.r3d_readset, r3d.r3d_memo_context, r3d.r3d_membership_gate],
 )
+
+from . import r6
+
+register(
+    "C03",
+    "Visitor-coverage clauses of index fidelity: (R6a) the yield-line visitor and the generator-status visitor descend "
+    "into the same statement-list fields, (R6b) both cover every statement-list field of the AST type universe except "
+    "nested scopes. Field values (names, scopes, dependency order, docstrings, usages from marks) are not decided.",
+    [r6.r6a_yield_siblings, r6.r6b_yield],
+)
+
+register(
+    "C17",
+    "Visitor-coverage clauses of undeclared-fixture precision: (R6b) the body visitors descend into every nested "
+    "statement list, (R6c) every name-binding form of the language is read by the local-variable collector and all "
+    "parameter kinds are enumerated. The quick-fix text edit is a string-value property and is not decided.",
+    [r6.r6b_body, r6.r6c_binding_forms],
+)
